@@ -10,12 +10,12 @@ from . import common as C
 
 
 class Case:
-    __slots__ = ("kind", "ops", "oracle", "key", "impl", "model", "crash")
+    __slots__ = ("kind", "ops", "oracle", "key", "impl", "model", "crash", "raw")
 
     def __init__(self, kind, ops, oracle=None, key=None):
         self.kind, self.ops, self.oracle = kind, ops, oracle
         self.key = key if key is not None else (kind, tuple(ops))
-        self.impl = self.model = None
+        self.impl = self.model = self.raw = None
         self.crash = None
 
 
@@ -93,6 +93,7 @@ def differential(ctx, impl_cmd, model_cmd, cases, timeout=300, env=None, label="
     for i, c in enumerate(cases):
         c.impl = iout.get(i)
         c.model = mout.get(i)
+        raw = c.raw = c.impl
         if canon and c.impl is not None:
             c.impl = [canon(x) for x in c.impl]
         ctx.case(c.key)
@@ -106,7 +107,7 @@ def differential(ctx, impl_cmd, model_cmd, cases, timeout=300, env=None, label="
             continue
         if c.oracle:
             try:
-                msg = c.oracle(c.impl)
+                msg = c.oracle(raw)      # the oracle sees the implementation's lines as printed
             except Exception as ex:  # malformed output is an oracle failure too
                 msg = "oracle could not read output %r: %r" % (c.impl[:3], ex)
             if msg:
